@@ -125,6 +125,7 @@ type Term struct {
 	free  []int   // ids of free *bound-style* variables occurring (sorted)
 	size  int
 	quant bool // contains a quantifier
+	qh    int  // quantifier height: nesting depth of quantifiers inside the term
 }
 
 func (t *Term) ID() int { return t.id }
@@ -185,12 +186,12 @@ func (c *Ctx) mk(t *Term) *Term {
 	t.id = c.next
 	t.size = 1
 	var fr map[int]bool
-	if t.Op == OpForall || t.Op == OpExists {
-		t.quant = true
-	}
 	for _, a := range t.Args {
 		if a.quant {
 			t.quant = true
+		}
+		if a.qh > t.qh {
+			t.qh = a.qh
 		}
 		t.size += a.size
 		if t.size > 1<<30 {
@@ -205,6 +206,10 @@ func (c *Ctx) mk(t *Term) *Term {
 	}
 	if t.Op == OpVar && t.K == 1 { // bound-style variable
 		fr = map[int]bool{t.id: true}
+	}
+	if t.Op == OpForall || t.Op == OpExists {
+		t.quant = true
+		t.qh++
 	}
 	for _, b := range t.Bound {
 		delete(fr, b.id)
@@ -661,10 +666,38 @@ func (c *Ctx) addrEq(a, b *Term) (*Term, bool) {
 
 func (c *Ctx) Ne(a, b *Term) *Term { return c.Not(c.Eq(a, b)) }
 
+// canonBound renames the variables of a quantifier about to be built to names fixed by the quantifier height of its
+// body, so that alpha-equivalent quantified formulas are ONE hash-consed term (a hypothesis "G ==> Q" and a goal
+// "G ==> Q'" then share G syntactically). Inner quantifiers have smaller heights, hence different names; sibling
+// quantifiers of equal height have disjoint scopes.
+func (c *Ctx) canonBound(vars []*Term, body *Term) ([]*Term, *Term) {
+	m := map[int]*Term{}
+	out := make([]*Term, len(vars))
+	same := true
+	for i, v := range vars {
+		name := smtName(fmt.Sprintf("qv%d_%d?%d%d", body.qh, i, v.S.K, v.S.W))
+		cv := c.mk(&Term{Op: OpVar, S: v.S, Name: name, K: 1})
+		if c.boundVars == nil {
+			c.boundVars = map[int]*Term{}
+		}
+		c.boundVars[cv.id] = cv
+		out[i] = cv
+		if cv != v {
+			m[v.id] = cv
+			same = false
+		}
+	}
+	if same {
+		return vars, body
+	}
+	return out, c.Subst(body, m)
+}
+
 func (c *Ctx) Forall(vars []*Term, body *Term) *Term {
 	if body.IsTrue() || body.IsFalse() {
 		return body
 	}
+	vars, body = c.canonBound(vars, body)
 	return c.mk(&Term{Op: OpForall, S: SBool, Args: []*Term{body}, Bound: vars})
 }
 
@@ -672,6 +705,7 @@ func (c *Ctx) Exists(vars []*Term, body *Term) *Term {
 	if body.IsTrue() || body.IsFalse() {
 		return body
 	}
+	vars, body = c.canonBound(vars, body)
 	return c.mk(&Term{Op: OpExists, S: SBool, Args: []*Term{body}, Bound: vars})
 }
 
